@@ -88,7 +88,8 @@ class Case(object):
     def __init__(self, cmd, params, inputs):
         self.cmd = cmd
         self.params = dict(params)      # python kwarg -> cleaned value
-        self.inputs = inputs            # list of masked arrays
+        # list of masked arrays (a plain ndarray - what a command hands on when it loses the masked type - is read as a field without missing cells)
+        self.inputs = [a if isinstance(a, numpy.ma.MaskedArray) or not isinstance(a, numpy.ndarray) else numpy.ma.array(a) for a in inputs]
 
     def spec(self):
         lib, how, pmap = COMMANDS[self.cmd]
@@ -534,6 +535,9 @@ def gen_params(rng, cmd, inputs, style="valid"):
             p["TrueThreshold"] = rand_num(rng)
         if rng.random() < 0.6:
             p["FalseThreshold"] = rand_num(rng)
+        if rng.random() < 0.1:
+            # the thresholds are the ends of the fuzzy range themselves (data already on a -1..1 scale): the map is the identity inside the range
+            p["TrueThreshold"], p["FalseThreshold"] = rng.choice([(1, -1), (1.0, -1.0), (-1, 1)])
         r = rng.random()
         if r < 0.3:
             p["Direction"] = "LowToHigh"
@@ -550,6 +554,8 @@ def gen_params(rng, cmd, inputs, style="valid"):
     elif cmd == "CvtFromFuzzy":
         p["TrueThreshold"] = rand_num(rng)
         p["FalseThreshold"] = rand_num(rng)
+        if rng.random() < 0.1:
+            p["TrueThreshold"], p["FalseThreshold"] = rng.choice([(1, -1), (1.0, -1.0)])
         if wild and rng.random() < 0.15:
             p["FalseThreshold"] = p["TrueThreshold"]
     return p
